@@ -26,6 +26,11 @@ TLC combines them with the key datagrams; the driver brings each about on the
 real listeners (second listener pair started with the loopback interface's
 name; store put into the class through the `verif` hooks and inspected) and
 the same monitors judge the records.
+  * the sender's source port class (SrcPorts): ephemeral / 123 / another
+    privileged port / the addressed listener's port number on the sender's own
+    address. TLC combines the classes with all 256 first bytes and the shapes;
+    the driver binds the sending socket to that port (a port that cannot be
+    bound makes the case unobserved, never a violation).
 
 VERIF_C09_CORRUPT=<kind> corrupts one recorded field before validation
 (negative control of the binding): drop_reply | dup_reply | reply_mode |
@@ -59,13 +64,14 @@ def _sig(inv, r):
         return "C09 %s ?" % inv
     if r["k"] == "pair":
         return "C09 %s pair %s" % (inv, r["tp"])
-    if r["k"] in ("stage", "anc"):
+    if r["k"] in ("stage", "anc", "port"):
         return "C09 %s %s %s%s" % (inv, r["k"], r["stage"], "" if r.get("conf", "sw") == "sw" else " listener=" + r["conf"])
     b = r["b0"]
     ln = r["len"]
     lc = "<48" if ln < 48 else "48" if ln == 48 else ">48"
     # the circumstances of arrival, when they are not the plain ones
-    env = ("" if r["conf"] == "sw" else " listener=" + r["conf"]) + ("" if r["store"] == "asis" else " store=" + r["store"])
+    env = (("" if r["conf"] == "sw" else " listener=" + r["conf"]) + ("" if r["store"] == "asis" else " store=" + r["store"])
+           + ("" if r.get("sp", "eph") == "eph" else " sport=" + r["sp"]))
     if r["n"] == 0 and inv in ("ToSender", "ReplyHeader", "MRawReverse"):
         # only the sentinel's reply can be meant
         return "C09 %s sentinel-reply %s%s%s" % (inv, r["tp"], (" hosts=%s>%s" % (r["sc"]["st"], r["sc"]["dt"])) if r["tp"] == "scion" else "", env)
@@ -104,6 +110,8 @@ def _corrupt(recs, kind):
 # store classes the environment of Listener_gen.cfg / Listener_gendeep.cfg brings
 # about (ListenerMC!StoresQuick, Listener!StoreClassNames) and what they mean
 STORES_Q = ["new", "k1", "k7", "k8", "il1", "il8", "full_evict", "full_stuck", "full_k3"]
+# source port classes other than "eph" (Listener!SrcPortNames)
+PORTS = ["p123", "priv", "lport"]
 STORES_T = ["new"] + ["k%d" % i for i in range(1, 9)] + ["il%d" % i for i in range(1, 9)] + ["full_evict", "full_stuck", "full_k3"]
 
 
@@ -174,6 +182,31 @@ def run(ctx):
         seen = {c["drop"] for c in cases if c["tp"] == tp}
         if seen != stages:
             raise vlib.Inconclusive("generated %s cases do not exercise the stages %s" % (tp, sorted(stages ^ seen)))
+    # vacuity self-check on the sender's source port (SPEC side): every class other
+    # than "eph" must come, on both transports, with each of the 8 valid first bytes
+    # as a 48-byte request and as a valid NTS request (answered by the model), with
+    # datagrams the model drops, and from the endpoint the class means
+    VALID_B0 = {8, 19, 27, 35, 200, 211, 219, 227}
+    portgen = {}
+    for c in cases:
+        if c["sp"] != "eph":
+            e = portgen.setdefault((c["sp"], c["tp"]), {"ans48": set(), "ansnts": set(), "dropped": 0, "n": 0, "p": set()})
+            e["n"] += 1
+            e["p"].add(c["src"]["p"] if c["tp"] == "ip" else c["sc"]["sp"])
+            if c["exp"]:
+                e["ans48" if c["len"] == 48 else "ansnts"].add(c["b0"])
+            else:
+                e["dropped"] += 1
+    for sp in PORTS:
+        for tp in ("ip", "scion"):
+            e = portgen.get((sp, tp))
+            meant = {"lport": {"ip": "ntp", "scion": "sntp"}[tp]}.get(sp, sp)
+            if not e or e["ans48"] != VALID_B0 or e["ansnts"] != VALID_B0 or e["dropped"] < 200 or e["p"] != {meant}:
+                raise vlib.Inconclusive("generated cases do not exercise source port class %s over %s with every valid first "
+                                        "byte (48 bytes and NTS) and with dropped datagrams: %s" % (sp, tp, e))
+    if set(sp for sp, _ in portgen) != set(PORTS) or any(c["src"]["p"] != "eph" for c in cases if c["sp"] == "eph"):
+        raise vlib.Inconclusive("unexpected source port classes generated: %s" % sorted(set(sp for sp, _ in portgen)))
+    n_port = sum(e["n"] for e in portgen.values())
     cp, pp = ctx.path("cases.ndjson"), ctx.path("pairs.ndjson")
     vlib.write_ndjson(cp, cases)
     vlib.write_ndjson(pp, pairs)
@@ -189,7 +222,8 @@ def run(ctx):
     if not recs:
         raise vlib.Inconclusive("driver recorded nothing:\n" + out[-2000:])
     anc_recs = [r for r in recs if r["k"] == "anc"]
-    obs = [r for r in obs if r["k"] != "anc"]
+    port_recs = {r["stage"]: r for r in recs if r["k"] == "port"}
+    obs = [r for r in obs if r["k"] not in ("anc", "port")]
     retried = sum(1 for r in recs if r["k"] == "case" and r["tries"] > 1)
     if retried:
         ctx.notes.append("%d cases needed more than one attempt (sentinel reply not seen within 2 s)" % retried)
@@ -202,7 +236,10 @@ def run(ctx):
     complete = all(r["sn"] == 1 for r in recs if r["k"] == "case")
     calm = all(r["arecv"] + r["brecv"] <= 2 for r in recs if r["k"] == "pair")
     reps = 1 if q else 2
-    want = reps * (len(cases) - n_store) + n_store + 4    # + preflight requests
+    # + preflight requests; cases whose source port could not be bound here are
+    # unobserved (counted by the driver, never judged)
+    n_unbound = sum(r["unbound"] for r in port_recs.values())
+    want = reps * (len(cases) - n_store) + n_store + 4 - n_unbound
     if (complete and ncase < want) or (complete and calm and npair < len(pairs)):
         raise vlib.Inconclusive("driver stopped early without an observation that explains it (%d/%d, %d/%d)"
                                 % (ncase, want, npair, len(pairs)))
@@ -229,6 +266,20 @@ def run(ctx):
     if sw_anc and sw_anc[0]["logged"]:
         ctx.notes.append("the kernel omitted the receive timestamp of %d of %d datagrams sent to the listeners started "
                          "without an interface name" % (sw_anc[0]["logged"], sw_anc[0]["sent"]))
+    # the sender's source port on the implementation side: which classes could be bound
+    if complete and set(port_recs) != set(PORTS):
+        raise vlib.Inconclusive("the driver did not report on the source port classes %s" % sorted(set(PORTS) ^ set(port_recs)))
+    port_obs = {}
+    for r in recs:
+        if r["k"] == "case" and r.get("sp", "eph") != "eph":
+            port_obs[r["sp"]] = port_obs.get(r["sp"], 0) + 1
+    for sp, pr in sorted(port_recs.items()):
+        if pr["unbound"]:
+            ctx.notes.append("source port class %s: %d of %d generated cases UNOBSERVED, the port could not be bound here (%s)"
+                             % (sp, pr["unbound"], pr["predicted"], pr["why"]))
+        if pr["logged"] != port_obs.get(sp, 0):
+            raise vlib.Inconclusive("source port class %s: the driver reports %d records, the trace has %d"
+                                    % (sp, pr["logged"], port_obs.get(sp, 0)))
     unobs = sum(e[0] - e[2] for e in envobs.values())
     if unobs:
         ctx.notes.append("%d store-class records without post-state (updateTXTimestamp not seen within 100 ms)" % unobs)
@@ -283,7 +334,7 @@ def run(ctx):
     ctx.cov.update(
         evaluations=len(recs),
         distinct_nontrivial=len({(r["k"], r["tp"], r["b0"], r["len"], r["tr"], r["pk"], r.get("fam", ""), r["src"]["h"],
-                                  r.get("conf", ""), r.get("store", "")) for r in obs}),
+                                  r.get("conf", ""), r.get("store", ""), r["src"]["p"]) for r in obs}),
         rule="every first payload byte 0..255 x {0,1,47,48,49,75,76,1024,2048 and each trailer class's natural length} "
              "x 18 trailer classes (none, <28 bytes, unknown fields, uid only, no uid, no cookie, valid NTS, valid NTS with "
              "placeholders, bad tag, wrong key, altered header, unknown cookie key, altered cookie, data after authenticator, "
@@ -296,8 +347,11 @@ def run(ctx):
              "message present / absent, transmit timestamp read / lost) x store class {left as is, %s} (client unknown, "
              "known with k exchanges, request referring to an exchange on record, 2^20 items with the oldest evictable / "
              "not evictable / client known) x %s first bytes x {47, 48, valid NTS 252, unauthentic NTS 252} x {IP, SCION}%s; "
+             "sender's source port: ephemeral (everything above) and {123, another privileged port (per seed), the "
+             "addressed listener's port number on the sender's own address} x all 256 first bytes x {47, 48, valid NTS 252, "
+             "unauthentic NTS 252} x {IP, SCION (underlay and SCION/UDP source port)}; "
              "distinct = distinct (kind, transport, first byte, length, trailer class, path kind, address types, source "
-             "host, listener configuration, store class)"
+             "host, listener configuration, store class, source port)"
              % ("non-empty paths and non-v4 hosts with 27 key first bytes" if q else "non-v4 hosts with 27 key first bytes",
                 "27 key" if q else "all 256", ", ".join(stores), "12 key" if q else "27 key",
                 "" if q else "; listener started with an interface name x all 256 first bytes"),
@@ -312,6 +366,10 @@ def run(ctx):
         records_in_store_class={"%s/%s" % k: {"records": v[0], "inspected_in_class": v[1], "post_state_seen": v[2]}
                                 for k, v in sorted(envobs.items())},
         no_rx_timestamp_logged={r["conf"]: [r["logged"], r["sent"]] for r in anc_recs},
+        generated_cases_per_source_port={"%s/%s" % k: {"cases": v["n"], "answered_by_model": len(v["ans48"]) + len(v["ansnts"]),
+                                                       "dropped_by_model": v["dropped"]} for k, v in sorted(portgen.items())},
+        records_per_source_port={sp: {"records": pr["logged"], "generated": pr["predicted"], "unbound": pr["unbound"],
+                                      "port": pr["port"]} for sp, pr in sorted(port_recs.items())},
         samples=[_brief(r) for r in (valid[:2] + [r for r in recs if r["k"] == "pair"][:2] + obs[-1:])])
     ctx.notes.append(
         "circumstances of arrival (spec side): Listener.tla generated %d cases beyond the plain circumstances: %d with a "
@@ -322,7 +380,21 @@ def run(ctx):
         % (n_env, n_store, len(stores), sum(1 for c in cases if c["cls"]["full"] and c["store"] != "asis"),
            sum(1 for c in cases if c["il"]), n_hw, sum(c["exp"] for c in cases if c["store"] != "asis" or c["conf"] != "sw"),
            sum(e[1] for e in envobs.values()), hw_anc[0]["logged"] if hw_anc else 0, hw_anc[0]["sent"] if hw_anc else 0))
+    ctx.notes.append(
+        "sender's source port (spec side): Listener.tla generated %d cases sent from a port other than an ephemeral one "
+        "(%s; each class x 256 first bytes x 4 shapes x {IP, SCION}); the model answers %d of them (8 valid first bytes x "
+        "{48 bytes, valid NTS} per class and transport). Implementation side: %d records (%s), %d cases unobserved because "
+        "the port could not be bound."
+        % (n_port, ", ".join("%s %d" % (sp, sum(e["n"] for k, e in portgen.items() if k[0] == sp)) for sp in PORTS),
+           sum(c["exp"] for c in cases if c["sp"] != "eph"), sum(port_obs.values()),
+           ", ".join("%s port %s: %d" % (sp, pr["port"] or "of the listener", pr["logged"]) for sp, pr in sorted(port_recs.items())),
+           n_unbound))
     ctx.assumptions += [
+        "source port classes: 123 and one other privileged port per seed (200 + 37*seed mod 800) need CAP_NET_BIND_SERVICE; "
+        "the sending workers of these cases are hosts of their own (one loopback address each) so that the same port can be "
+        "bound by all of them; over SCION the underlay source port and the SCION/UDP source port are the same port (an end "
+        "host's socket); a listener that itself runs on port 123 with a sender on port 123 of another address is the class "
+        "'lport' with the harness's listener ports (the listeners here run on free ports)",
         "listener configuration 'hw' is brought about by starting the listeners with the loopback interface's name "
         "(localHost.Zone): hardware timestamping on an interface without hardware clock; a sporadically missing "
         "timestamp on a listener started without an interface name is explored by TLC but cannot be forced on the "
@@ -347,11 +419,11 @@ def run(ctx):
 def _brief(r):
     if r is None:
         return "?"
-    if r["k"] in ("stage", "anc"):
+    if r["k"] in ("stage", "anc", "port"):
         return r
     if r["k"] == "pair":
         return {k: r[k] for k in ("k", "tp", "b0", "len", "tr", "src", "dst", "arecv", "brecv", "asrv", "bsrv", "exp")}
-    d = {k: r[k] for k in ("k", "id", "tp", "b0", "len", "tr", "pk", "n", "slen", "sn", "tries", "exp", "drop", "conf", "store")}
+    d = {k: r[k] for k in ("k", "id", "tp", "b0", "len", "tr", "pk", "src", "n", "slen", "sn", "tries", "exp", "drop", "conf", "store")}
     if r["obs"]:
         d.update(pre=r["pre"], post_k=r["post_k"], il=r["il"])
     d["out"] = [{k: o[k] for k in ("b0", "st", "len", "src", "echo", "org", "raw_ok")} for o in r["out"]]
